@@ -153,10 +153,11 @@ class Tracker:
 
             # Advection
             if self.vertical_advection:
-                W = force.variables["w"]
-                # The output step may have removed dead particles after
-                # force.update(), the copy in the state follows the particles
-                if len(W) != len(Z) and "w" in state.variables:
+                W = force.variables.get("w")
+                # The copy in the state follows the particles, use it if the
+                # forcing module has no array of its own or dead particles were
+                # removed after force.update()
+                if (W is None or len(W) != len(Z)) and "w" in state.variables:
                     W = state["w"]
                 # Backward tracking follows the flow in the opposite direction
                 if getattr(self.modules["time"], "time_reversal", False):
